@@ -160,6 +160,50 @@ mod verif_cex_commit {
             drop(db);
             let _ = std::fs::remove_file(&p);
         }
+        // ---- every single write of commit B is SHORT in turn (100 bytes reach the file) and nothing fails afterwards: a short count
+        // is not an error, the rest has to be written (write_all does); commit answers Ok and the state is the post-state, or it
+        // answers Err and the state is pre or post -- never Ok with a page only partly in the file
+        for k in 1..=nw {
+            let p = tmp("short");
+            let db = OpenOptions::new().pagesize(PS).open(&p).unwrap();
+            commit_a(&db);
+            let w0 = parse(&log_lines()).iter().filter(|e| matches!(e, Ev::W { .. })).count();
+            set_ctl(&format!("Q {} 100", w0 + k));
+            let r = std::panic::catch_unwind(std::panic::AssertUnwindSafe(|| commit_b(&db)));
+            set_ctl("-1");
+            let what = format!("history: page size 1024, commit A (20 keys), then commit B (40 new keys, 10 overwritten) with write #{} of {} of commit B SHORT (100 of its bytes written, no error afterwards; offset {:?})", k, nw, evs[writes[k - 1]]);
+            let ok = match r {
+                Err(_) => { println!("CEX Tx::commit (C11 no panic): {}: commit panicked", what); panic!("c11-short-panic"); }
+                Ok(Ok(())) => true,
+                Ok(Err(_)) => false,
+            };
+            let now = contents(&db);
+            if (ok && now != after) || (now != before && now != after) {
+                println!("CEX Tx::commit (C11 a short write is not a completed write): {}: commit answered {} and the handle shows {} entries (before {}, after {})", what, if ok { "Ok" } else { "Err" }, now.len(), before.len(), after.len());
+                panic!("c11-short-state");
+            }
+            let ip = tmp("image");
+            std::fs::copy(&p, &ip).unwrap();
+            let res = std::panic::catch_unwind(|| {
+                let d2 = OpenOptions::new().pagesize(PS).open(&ip).unwrap();
+                d2.check().map(|_| contents(&d2))
+            });
+            let _ = std::fs::remove_file(&ip);
+            match res {
+                Ok(Ok(c)) if (ok && c == after) || (!ok && (c == before || c == after)) => {}
+                other => {
+                    println!("CEX Tx::commit (C11 a short write is not a completed write): {}: commit answered {}; reopening a copy of the file gives {:?}", what, if ok { "Ok" } else { "Err" }, other.map(|r| r.map(|c| c.len())));
+                    panic!("c11-short-reopen");
+                }
+            }
+            let later = std::panic::catch_unwind(std::panic::AssertUnwindSafe(|| put_keys(&db, 100, 110, 50, 7).and_then(|_| db.check())));
+            if !matches!(later, Ok(Ok(()))) {
+                println!("CEX Tx::commit (C11 later transactions): {}: the next transaction on the same handle gives {:?}", what, later.map(|r| r.map_err(|e| format!("{:?}", e))));
+                panic!("c11-short-later");
+            }
+            drop(db);
+            let _ = std::fs::remove_file(&p);
+        }
         // ---- the FIRST commit on a fresh file GROWS the file: every single write of it fails in turn, then the same
         // transaction is retried on the same handle (C11: the handle keeps accepting transactions that commit correctly)
         let p = tmp("grow-ref");
